@@ -88,6 +88,9 @@ func Decode(b []byte) (Doc, error) {
 					if a == "" {
 						continue // unknown column: ignored
 					}
+					if cells[i] == "" && AttrKind[a] != "s" {
+						continue // an empty cell of a typed column: the style does not set this attribute
+					}
 					v, err := decodeValue(AttrKind[a], cells[i])
 					if err != nil {
 						return d, fmt.Errorf("line %d: column %s: %v", n+1, c, err)
